@@ -125,6 +125,6 @@ Proof.
   split; [|split; [exact Ht|split; [exact Hth|]]].
   - intros i p H. split; [|apply (Hdone i p H)].
     rewrite (p_open _ _ _ (P i p H)), (Hdone i p H). reflexivity.
-  - intros a cr HM s' Hs. simpl in Hs. unfold step_main in Hs. rewrite HM in Hs.
+  - intros a cr pl HM s' Hs. simpl in Hs. unfold step_main in Hs. rewrite HM in Hs.
     destruct (smlock s); [discriminate|]. simpl in Hs. rewrite Hf in Hs. inversion Hs. split; reflexivity.
 Qed.
